@@ -18,11 +18,29 @@ Structure of the argument (DESIGN §4 C28):
 namespace TLVerif.Props.C28
 open TLVerif.Lint
 
+/-- decidable form of the side condition on the top-level reference: it does not use, bare, a type that has one
+constructor in the old schema and several in the new one (such a reference has no meaning in the new schema;
+references inside the old schema satisfy this by `wireCompat`). -/
+def cleanRef (old new : Schema) (t : TypeRef) : Bool :=
+  (typeOrder old).all (fun T => match typeCombs old T with
+    | [c] => decide ((typeCombs new T).length ≤ 1) || !bareUse T c.name t
+    | _ => true)
+
+theorem clean_of_cleanRef {old new : Schema} {t : TypeRef} (h : cleanRef old new t = true) : Clean old new t := by
+  intro T cn hb
+  obtain ⟨c, hone, hname, hlen⟩ := hb
+  have hT : T ∈ typeOrder old := mem_typeOrder_of_mem_typeCombs (c := c) (by simp [hone])
+  have := (List.all_eq_true.mp h) T hT
+  simp only [hone, Bool.or_eq_true, decide_eq_true_eq, Bool.not_eq_true'] at this
+  rcases this with h1 | h1
+  · omega
+  · rw [← hname]; exact h1
+
 /-- C28, semantic side, types: under `wireCompat`, the new schema encodes every old value (strictly valid under the
 old schema) of every closed type expression exactly as the old schema does. -/
-theorem wire_sound {old new : Schema} (h : wireCompat old new = true) (t : TypeRef) (v : Val) (bs : Bytes)
-    (hold : encTy old true t v = some bs) : encTy new false t v = some bs :=
-  encTy_sim (wc_of_wireCompat h) v t bs hold
+theorem wire_sound {old new : Schema} (h : wireCompat old new = true) (t : TypeRef) (hc : cleanRef old new t = true)
+    (v : Val) (bs : Bytes) (hold : encTy old true t v = some bs) : encTy new false t v = some bs :=
+  encTy_sim (wc_of_wireCompat h) v t bs (clean_of_cleanRef hc) hold
 
 /-- C28, semantic side, functions: the call of an old function with old arguments is encoded identically by the
 new version of the function. -/
@@ -38,14 +56,16 @@ theorem wire_sound_function {old new : Schema} (h : wireCompat old new = true) {
   | some body =>
     simp only [hb, Option.map_some, Option.some.injEq] at hold
     have hinv0 : Inv f ex Env.empty 0 := by intro _ _ _ _ _ _ hlt; omega
-    have := encFields_sim hw args f f' ex hcorr Env.empty 0 f.fields body (by simp) hinv0 hb
+    have := encFields_sim hw args f f' ex hcorr (List.mem_filter.mp hf).1 Env.empty 0 f.fields body (by simp) hinv0
+      (fun T cn _ => envClean_empty T cn) hb
     rw [hcorr.2.2.2.1, this, hcorr.2.1]
     simpa using hold
 
 /-- arrays: same statement for `cnt` elements of a closed type. -/
-theorem wire_sound_elems {old new : Schema} (h : wireCompat old new = true) (t : TypeRef) (cnt : Nat) (vs : VList) (bs : Bytes)
+theorem wire_sound_elems {old new : Schema} (h : wireCompat old new = true) (t : TypeRef) (hc : cleanRef old new t = true)
+    (cnt : Nat) (vs : VList) (bs : Bytes)
     (hold : encElems old true t cnt vs = some bs) : encElems new false t cnt vs = some bs :=
-  encElems_sim (wc_of_wireCompat h) vs t cnt bs hold
+  encElems_sim (wc_of_wireCompat h) vs t cnt bs (clean_of_cleanRef hc) hold
 
 /-! ### the hypothesis is satisfiable, non-trivially -/
 
@@ -54,6 +74,11 @@ open TLVerif.Lint.Ex in
 example : wireCompat base (prelude ++ [foo, { obj with fields := obj.fields ++ [mfld "c" "m" 3 (ref "string")] }, getF]) = true ∧
     encTy base true (ref "Obj") (.ctor "obj" (.cons (.nat 1) (.cons (.prim [1, 2, 3, 4]) (.cons (.prim [0, 0, 0, 0, 0, 0, 0, 9]) .nil)))) =
       some [7, 0, 0, 0, 1, 0, 0, 0, 1, 2, 3, 4, 0, 0, 0, 0, 0, 0, 0, 9] := by decide
+
+open TLVerif.Lint.Ex in
+/-- `Foo` (used only boxed) gets a second constructor: wire compatible; the boxed reference `Foo` is clean. -/
+example : wireCompat base (prelude ++ [foo, foo2, obj, getF]) = true ∧
+    cleanRef base (prelude ++ [foo, foo2, obj, getF]) (ref "Foo") = true := by decide
 
 /-! ### full-strength statement and its failure -/
 
